@@ -222,6 +222,35 @@ namespace
                     ++ctx.rep.nontrivial;
                     ctx.rep.digest(s.digest(false));
                 }
+                // The same world on a graph that has already routed another field ("start from
+                // non-initial states too"): judged again only if the resulting state differs
+                // from the fresh one (a difference that passes the oracle is C09's business).
+                if (!c.elev2.empty() && f.empty())
+                {
+                    Built<G> wb = build_graph(grid, c.prog, c.p);
+                    configure(*wb.fg, c);
+                    auto other = make_field(grid, c.elev2);
+                    wb.fg->update_routes(other);
+                    auto again = make_field(grid, c.elev);
+                    const auto& wout = wb.fg->update_routes(again);
+                    ctx.rep.ops += 2;
+                    GState ws = extract_state(wb.fg->impl(), wout);
+                    if (ws.digest(false) != s.digest(false))
+                    {
+                        Findings wf;
+                        FlowInputs win = inputs(c, *wb.fg, c.elev);
+                        if (prop == "C01")
+                            oracle_c01(win, ws, resolver_class(c.prog), wf);
+                        else if (prop == "C02")
+                            oracle_c02(win, ws, resolver_class(c.prog), wf);
+                        else
+                            oracle_c04(win, ws, wf);
+                        for (auto& x : wf)
+                            x.sig += "/on-reused-graph";
+                        report(wf, c, "update_routes on a graph that routed another field (e2) before");
+                        ctx.rep.hit("reused-graph-state-differs-from-fresh");
+                    }
+                }
                 if (prop != "C04")
                 {
                     std::size_t filled = 0;
@@ -243,12 +272,36 @@ namespace
                 if (tables_ok(s, f))
                     check_accumulate(fg, s, c, f);
                 report(f, c, "accumulate");
+                if (!c.elev2.empty() && f.empty())
+                {
+                    // accumulate again after the same graph routed another field and came back
+                    auto other = make_field(grid, c.elev2);
+                    fg.update_routes(other);
+                    (void) fg.accumulate(-3.0);
+                    auto again = make_field(grid, c.elev);
+                    const auto& out2 = fg.update_routes(again);
+                    ctx.rep.ops += 3;
+                    GState s2 = extract_state(fg.impl(), out2);
+                    Findings f2;
+                    if (tables_ok(s2, f2))
+                        check_accumulate(fg, s2, c, f2);
+                    for (auto& x : f2)
+                        x.sig += "/on-reused-graph";
+                    report(f2, c, "accumulate on a graph that routed another field (e2) in between");
+                }
             }
             else if (prop == "C05")
             {
                 for (int round = 0; round < 2; ++round)
                 {
                     double p = round == 0 ? c.p : c.p2;
+                    if (round == 1 && !c.elev2.empty())
+                    {
+                        // an unjudged update with another field in between
+                        auto other = make_field(grid, c.elev2);
+                        fg.update_routes(other);
+                        ++ctx.rep.ops;
+                    }
                     for (auto& m : b.multis)
                         m->m_slope_exp = p;
                     const auto& out = fg.update_routes(field);
